@@ -558,12 +558,15 @@ def nested_run(a, ctx):
     if a.get('capture_stderr', True):
         sys.stderr = out
     failed = raised = None
+    import vtrace as _vt
+    _vt.mute_claims = True
     try:
         try:
             failed = zope.testrunner.run_internal(argv, ['inner'])
         except BaseException as e:     # noqa: reported, not swallowed
             raised = repr(e)
     finally:
+        _vt.mute_claims = False
         sys.stdout, sys.stderr = saved
         sys.modules.pop(name, None)
         shutil.rmtree(d, ignore_errors=True)
